@@ -91,6 +91,40 @@ func VisitValid(c ValidCfg, hist []uint8, which string, probes *int64) (uint64, 
 		all = append(all, entry{id: id, topics: topics, exp: now + int64(ttl)})
 		return ""
 	}
+	// replayOldest is the Replay a history can contain as a step (a client resuming from the oldest event that
+	// has not expired, topics {a,b}); what it sends is checked every time, and it is also the first probe in the
+	// final state, so that whatever an earlier Replay left behind in the replayer meets the same request again.
+	replayOldest := func() string {
+		w := &probeWriter{}
+		sub := sse.Subscription{Client: w, Topics: []string{"a", "b"}}
+		var want []string
+		found := false
+		for _, e := range all {
+			if e.exp > now {
+				if !found {
+					sub.LastEventID = sse.ID(e.id)
+					found = true
+				} else {
+					want = append(want, e.id)
+				}
+			}
+		}
+		rerr := r.Replay(sub)
+		if which == "C18" {
+			return ""
+		}
+		if !found {
+			want = nil
+		}
+		if strings.Join(w.sends, ",") != strings.Join(want, ",") || rerr != nil {
+			rel := "less than expected"
+			if len(w.sends) > len(want) {
+				rel = "more than expected"
+			}
+			return viol(fmt.Sprintf("valid replay from the oldest unexpired ID, as a step of the history (autoIDs=%v): %s", c.Auto, rel), "%s: Replay(LastEventID=%q, topics=[a b]) sent [%s] (error %v), want [%s]", desc(), sub.LastEventID.String(), strings.Join(w.sends, ","), rerr, strings.Join(want, ","))
+		}
+		return ""
+	}
 	held := 0 // upper bound of what the replayer may still hold
 	for k, op := range hist {
 		last := k == len(hist)-1
@@ -120,15 +154,7 @@ func VisitValid(c ValidCfg, hist []uint8, which string, probes *int64) (uint64, 
 			now += int64(ttl)
 			adv++
 		case 8:
-			w := &probeWriter{}
-			sub := sse.Subscription{Client: w, Topics: []string{"a", "b"}}
-			for _, e := range all {
-				if e.exp > now {
-					sub.LastEventID = sse.ID(e.id)
-					break
-				}
-			}
-			_ = r.Replay(sub)
+			v = replayOldest()
 		case 6, 7:
 			macros++
 			n := 5
@@ -211,6 +237,10 @@ func VisitValid(c ValidCfg, hist []uint8, which string, probes *int64) (uint64, 
 	}
 
 	// probes
+	*probes++
+	if v := replayOldest(); v != "" {
+		return 0, true, v
+	}
 	type probeID struct {
 		id    string
 		set   bool
